@@ -153,6 +153,18 @@ public:
     }
   }
 
+  // indices of arguments bound to non-const lvalue-reference parameters (the callee may write them)
+  void refArgs(const FunctionDecl *FD, unsigned NumArgs, unsigned Offset) {
+    if (!FD) return;
+    J.attributeArray("refargs", [&] {
+      for (unsigned i = 0; i < FD->getNumParams() && i + Offset < NumArgs; ++i) {
+        QualType T = FD->getParamDecl(i)->getType();
+        if (T->isLValueReferenceType() && !T->getPointeeType().isConstQualified())
+          J.value((int64_t)(i + Offset));
+      }
+    });
+  }
+
   void tryConst(const Expr *E) {
     if (E->isValueDependent() || E->isTypeDependent()) return;
     if (!E->getType()->isIntegralOrEnumerationType()) {
@@ -230,6 +242,7 @@ public:
         if (auto *FD = OC->getDirectCallee()) {
           J.attribute("callee", qname(FD));
           J.attribute("cusr", usr(FD));
+          refArgs(FD, OC->getNumArgs(), isa<CXXMethodDecl>(FD) ? 1 : 0);
         }
         J.attributeArray("args", [&] { for (auto *A : OC->arguments()) expr(A); });
       } else if (auto *MC = dyn_cast<CXXMemberCallExpr>(E)) {
@@ -241,6 +254,7 @@ public:
           J.attribute("method", MD->getNameAsString());
           if (MD->isVirtual()) J.attribute("virtual", true);
           if (auto *RD = MD->getParent()) J.attribute("record", qname(RD));
+          refArgs(MD, MC->getNumArgs(), 0);
         } else {
           Unresolved++;
           J.attribute("unresolved", true);
@@ -257,6 +271,7 @@ public:
           J.attribute("cusr", usr(FD));
           if (FD->isNoReturn()) J.attribute("noreturn", true);
           if (unsigned BI = FD->getBuiltinID()) J.attribute("builtin", (int64_t)BI);
+          refArgs(FD, C->getNumArgs(), 0);
         } else {
           Unresolved++;
           J.attribute("unresolved", true);
@@ -367,6 +382,7 @@ public:
           J.attribute("callee", qname(CD));
           J.attribute("cusr", usr(CD));
           if (CD->isCopyOrMoveConstructor()) J.attribute("copy", true);
+          refArgs(CD, CC->getNumArgs(), 0);
         }
         J.attributeArray("args", [&] { for (auto *A : CC->arguments()) expr(A); });
       } else if (isa<CXXThisExpr>(E)) {
